@@ -26,6 +26,8 @@ Definition E_DDSIG := 7.   (* "data descriptor signature is missing" *)
 Definition E_DDINV := 8.   (* "data descriptor is invalid" *)
 Definition E_SEEK := 9.    (* "attempted to seek backwards" *)
 Definition E_NEW := 10.    (* "new zipfile, can't produce original directory" *)
+Definition E_TRUNC := 11.  (* "zip central directory is truncated" *)
+Definition E_OOB := 12.    (* "zip central directory is out of bounds" *)
 Definition E_FUEL := 99.
 Definition P_INDEX := 1.   (* slice bounds / index out of range *)
 Definition P_MAKE := 2.    (* makeslice: len out of range *)
@@ -140,19 +142,17 @@ Fixpoint read_entries (fuel : nat) (cd : bytes) : result (list cdent * bytes) :=
   match fuel with
   | O => Err E_FUEL
   | S k =>
-      if zlen cd <? 4 then Panic P_INDEX else                               (* LittleEndian.Uint32(cd) *)
+      if rwd_cd_short (zlen cd) then Err E_NOEND else
       if rwd_not_cd_sig (le_dec (ztake 4 cd)) then Ok ([], cd) else
-      if zlen cd <? directoryHeaderLen then Panic P_INDEX else              (* cd[directoryHeaderLen:] *)
+      if rwd_hdr_short (zlen cd) then Err E_TRUNC else
       let nlen := cdf cdh_off_FilenameLen cdh_w_FilenameLen cd in
       let elen := cdf cdh_off_ExtraLen cdh_w_ExtraLen cd in
       let clen := cdf cdh_off_CommentLen cdh_w_CommentLen cd in
+      if rwd_ent_short (zlen cd) nlen elen clen then Err E_TRUNC else
       let r1 := zdrop directoryHeaderLen cd in
-      if zlen r1 <? nlen then Panic P_INDEX else
       let r2 := zdrop nlen r1 in
-      if zlen r2 <? elen then Panic P_INDEX else
       let extra := ztake elen r2 in
       let r3 := zdrop elen r2 in
-      if zlen r3 <? clen then Panic P_INDEX else
       let r4 := zdrop clen r3 in
       let u0 := cdf cdh_off_UncompressedSize cdh_w_UncompressedSize cd in
       let c0 := cdf cdh_off_CompressedSize cdh_w_CompressedSize cd in
@@ -187,7 +187,7 @@ Definition read_with_directory (size : Z) (cd : bytes) : result directory :=
 (* Read(r, size) over a bytes.Reader (an empty tail read reports EOF there) *)
 Definition read_zip (r : reader) (size : Z) : result directory :=
   loc <- find_directory r size ;;
-  if size - loc <? 0 then Panic P_MAKE else
+  if rz_oob loc size then Err E_OOB else
   if size - loc =? 0 then Err E_READ else
   cd <- r loc (size - loc) ;;
   read_with_directory size cd.
